@@ -97,6 +97,7 @@ class FakeStdin:
         self.closed = False
         self.mode = "ok"  # ok | block | broken
         self.send_calls = 0
+        self.yields = 1  # scheduling points inside one send (emulates a drain that suspends)
 
     async def send(self, data: bytes):
         self.send_calls += 1
@@ -106,7 +107,8 @@ class FakeStdin:
             raise anyio.BrokenResourceError
         if self.mode == "block":
             await asyncio.get_running_loop().create_future()  # never completes
-        await asyncio.sleep(0)
+        for _ in range(self.yields):
+            await asyncio.sleep(0)
         self.sends.append(bytes(data))
         self.data += data
         cb = self._proc.on_stdin
